@@ -1,15 +1,10 @@
 #!/bin/sh
-# Build the Lean project (every property module + every driver whose source exists) from files on disk only.
-set -e
-cd "$(dirname "$0")/lean"
-mods=$(ls NunavutVerif/Properties/*.lean | sed 's#/#.#g; s#\.lean$##')
-exes=""
-for e in $(awk '/^name = /{n=$3} /^root = /{gsub(/"/,"",n); r=$3; gsub(/"/,"",r); gsub(/\./,"/",r); print n":"r}' lakefile.toml); do
-  n=${e%%:*}; f=${e#*:}.lean
-  [ -f "$f" ] && exes="$exes $n"
-done
-echo "building: $mods $exes"
+# Build the Lean project from files on disk only: the property modules and drivers of every claimed check
+# (lean/targets.txt is written by tools/gen_manifest.py from tools/manifest_src.json).
+cd "$(dirname "$0")/lean" || exit 2
+targets=$(cat targets.txt)
+echo "building:" $targets
 rc=0
-flock .lock lake build $mods $exes > .setup.log 2>&1 || rc=$?
+flock .lock lake build $targets > .setup.log 2>&1 || rc=$?
 grep -v "^⚠\|warning\|linter\|Hint\|\[apply\]\|^Note\|^$" .setup.log | tail -15
 exit $rc
